@@ -77,11 +77,15 @@ class Ref(Ty):
 
 
 class List(Ty):
+    """Heap list. `region` names the separate heap component the list lives in (Burstall-Bornat style):
+    lists of different regions never alias. Regions are assigned from the field/attribute a list is stored in
+    (assumption A-region: a container object is reachable through one field only)."""
     kind = "List"
 
-    def __init__(self, t, ghost_sum=()):
+    def __init__(self, t, ghost_sum=(), region=""):
         self.t = t
         self.ghost_sum = tuple(ghost_sum)   # flattened component indices with a maintained ghost sum
+        self.region = region
 
     def sig(self):
         return f"List[{self.t.sig()}]"
@@ -89,19 +93,72 @@ class List(Ty):
     def sorts(self):
         return [Obj]
 
+    def k_len(self):
+        return f"$len@{self.region}"
+
+    def k_elem(self, k):
+        return f"$e@{self.region}:{self.t.sig()}#{k}"
+
+    def k_sum(self, k):
+        return f"$sum@{self.region}:{self.t.sig()}#{k}"
+
+    def all_keys(self):
+        return [self.k_len()] + [self.k_elem(k) for k in range(len(self.t.sorts()))] + [self.k_sum(k) for k in self.ghost_sum]
+
+    def with_region(self, region):
+        return List(with_region(self.t, region + ".e"), self.ghost_sum, region)
+
 
 class Dict(Ty):
     kind = "Dict"
 
-    def __init__(self, k, v):
+    def __init__(self, k, v, region=""):
         self.k = k
         self.v = v
+        self.region = region
 
     def sig(self):
         return f"Dict[{self.k.sig()},{self.v.sig()}]"
 
     def sorts(self):
         return [Obj]
+
+    def k_dom(self):
+        return f"$dom@{self.region}:{self.k.sig()}"
+
+    def k_val(self, j):
+        return f"$dv@{self.region}:{self.k.sig()}:{self.v.sig()}#{j}"
+
+    def all_keys(self):
+        return [self.k_dom()] + [self.k_val(j) for j in range(len(self.v.sorts()))]
+
+    def with_region(self, region):
+        return Dict(self.k, with_region(self.v, region + ".v"), region)
+
+
+def with_region(ty, region):
+    """Assign heap regions to the container types inside ty (containers that already have one keep it)."""
+    if isinstance(ty, (List, Dict)):
+        return ty if ty.region else ty.with_region(region)
+    if isinstance(ty, Opt):
+        return Opt(with_region(ty.t, region))
+    if isinstance(ty, Tuple):
+        return Tuple(*[with_region(t, f"{region}.{i}") for i, t in enumerate(ty.ts)])
+    return ty
+
+
+REGIONS: dict = {}
+
+
+def note_regions(ty):
+    if isinstance(ty, (List, Dict)):
+        REGIONS[ty.region] = ty
+        note_regions(ty.t if isinstance(ty, List) else ty.v)
+    elif isinstance(ty, Opt):
+        note_regions(ty.t)
+    elif isinstance(ty, Tuple):
+        for t in ty.ts:
+            note_regions(t)
 
 
 class Tuple(Ty):
@@ -255,7 +312,13 @@ def coerce(v: V, ty: Ty) -> V:
     if isinstance(ty, Ref) and isinstance(v.ty, Ref):
         return V(ty, v.terms)
     if isinstance(ty, (List, Dict)) and isinstance(v.ty, (List, Dict)) and ty.kind == v.ty.kind:
-        return V(ty, v.terms)
+        if ty.region == v.ty.region:
+            return V(ty, v.terms)
+        if not ty.region:
+            return v               # generic target: the value keeps its own region
+        if not v.ty.region:
+            raise TypeErr(f"container without region flows into region {ty.region} (declare its type)")
+        raise TypeErr(f"container of region {v.ty.region} flows into region {ty.region}")
     if ty in (DT, TD) and v.ty in (Int, Real):
         return V(ty, [mk_real(v.t).t])
     raise TypeErr(f"cannot coerce {v.ty} to {ty}")
@@ -311,6 +374,11 @@ def join_ty(a: Ty, b: Ty) -> Ty:
         return Int
     if isinstance(a, Ref) and isinstance(b, Ref):
         return a
+    if isinstance(a, (List, Dict)) and isinstance(b, (List, Dict)) and a.kind == b.kind and a.sig() == b.sig():
+        if a.region == b.region or not b.region:
+            return a
+        if not a.region:
+            return b
     raise TypeErr(f"cannot join {a} and {b}")
 
 
